@@ -5,6 +5,6 @@ D=$(mktemp -d /tmp/vfmut_XXXX)
 cp -r /repo/gfapy /repo/bin $D/
 sed -i "$EXPR" $D/$F
 if diff -rq /repo/gfapy $D/gfapy >/dev/null && diff -rq /repo/bin $D/bin > /dev/null; then echo "mutant: sed changed nothing"; rm -rf $D; exit 3; fi
-diff -r /repo/gfapy $D/gfapy | head -8
+(diff -r /repo/gfapy $D/gfapy; diff -r /repo/bin $D/bin) | head -8
 VERIF_GFAPY_ROOT=$D VERIF_EVIDENCE_DIR=$D/ev VERIF_REPLAY_DIR=$D/rp /verif/check "$@" 2>&1 | grep -a "tier=\|violation detail\|VIOLATION\|HARNESS" | cut -c1-300
 rm -rf $D
